@@ -21,6 +21,10 @@ use std::collections::{hash_map::Entry, BTreeSet, HashMap};
 use tokio::{sync::mpsc, time::Duration};
 
 // Max parallel fetches that can be undertaken at the same time.
+#[cfg(feature = "verif-hooks")]
+#[path = "verif_hooks/fetcher.rs"]
+pub mod verif_hooks;
+
 const MAX_PARALLEL_FETCH: usize = K_VALUE.get();
 
 // The duration after which a peer will be considered failed to fetch data from,
